@@ -450,3 +450,13 @@ Definition py_int (v : pv) : res pv :=
   | VBool b => Ok (VInt (if b then 1 else 0)%Z)
   | _ => Err TypeError
   end.
+
+(* ---------- element.find(q) / element.findall(q): first child / all children with that Clark name ---------- *)
+Definition py_findall (el q : pv) : res pv := py_iterfind el q.
+Definition py_find (el q : pv) : res pv :=
+  l <- py_iterfind el q ;;
+  match l with
+  | VList (x :: _) => Ok x
+  | VList [] => Ok VNone
+  | _ => Err TypeError
+  end.
